@@ -148,4 +148,105 @@ func TestThreeScanners(t *testing.T) {
 	})
 }
 
+// The same JSON value embedded into schema syntax: user comments ('#' lines, '###' blocks,
+// end-of-line '#'), blank lines, a blank before the colon and LF / CRLF / CR line ends between
+// the tokens. The schema scanner must deliver, new-line events aside, exactly the events the
+// statement describes for the JSON tokens at their (printer-recorded) offsets.
+type DecoratedCase struct {
+	Input string     `json:"input"`
+	Want  []lex.Want `json:"expected_events"`
+}
+
+const chkDec = "schema-scanner-on-decorated-json"
+
+func init() {
+	run.RegisterReplay(chkDec, func(t run.TB, raw json.RawMessage) {
+		var c DecoratedCase
+		if err := json.Unmarshal(raw, &c); err != nil {
+			t.Fatalf("bad case: %v", err)
+		}
+		checkDecorated(t, c)
+	})
+}
+
+func checkDecorated(t run.TB, c DecoratedCase) {
+	in := []byte(c.Input)
+	se, err := verifhook.SchemaEvents(in)
+	if err != nil {
+		run.Fail(t, chkDec, c, "schema scanner failed on JSON decorated with comments and line ends: %v", err)
+	}
+	var sch []lex.Ev
+	for _, e := range se {
+		sch = append(sch, lex.Ev{Type: e.Type, Begin: e.Begin, End: e.End})
+	}
+	sch = lex.DropNewLines(sch)
+	if m := lex.Compare(sch, c.Want, len(in)); m != "" {
+		run.Fail(t, chkDec, c, "%s", m)
+	}
+}
+
+// toSNode converts a JSON value into a rule-free schema model; spanned mirrors it back with the
+// offsets the schema printer recorded.
+func toSNode(v *ref.Value) *ref.SNode {
+	switch v.Kind {
+	case ref.KObject:
+		n := &ref.SNode{Kind: ref.SObj}
+		for _, m := range v.Members {
+			n.Props = append(n.Props, ref.SProp{Key: m.Key, KeyTok: m.KeyTok, Val: toSNode(m.Val)})
+		}
+		return n
+	case ref.KArray:
+		n := &ref.SNode{Kind: ref.SArr}
+		for _, it := range v.Items {
+			n.Items = append(n.Items, toSNode(it))
+		}
+		return n
+	}
+	return &ref.SNode{Kind: ref.SLit, Lit: v.Kind, Tok: v.Tok, Str: v.Str}
+}
+
+func spanned(n *ref.SNode) *ref.Value {
+	v := &ref.Value{Begin: n.Begin, End: n.End}
+	switch n.Kind {
+	case ref.SObj:
+		v.Kind = ref.KObject
+		for _, p := range n.Props {
+			v.Members = append(v.Members, ref.Member{Key: p.Key, KeyTok: p.KeyTok, KeyBegin: p.KeyBegin, KeyEnd: p.KeyEnd, Val: spanned(p.Val)})
+		}
+	case ref.SArr:
+		v.Kind = ref.KArray
+		for _, it := range n.Items {
+			v.Items = append(v.Items, spanned(it))
+		}
+	default:
+		v.Kind, v.Tok, v.Str = n.Lit, n.Tok, n.Str
+	}
+	return v
+}
+
+func TestDecoratedSchema(t *testing.T) {
+	run.SkipIfReplaying(t)
+	defer run.Done(t, chkDec)
+	rapid.Check(t, func(t *rapid.T) {
+		model := gen.Value(t, gen.DocOpts{Depth: rapid.IntRange(0, 5).Draw(t, "depth"), Width: 4, Exp: false, StrLen: 6, RootContainer: rapid.IntRange(0, 4).Draw(t, "rootc") > 0}, "v")
+		sn := toSNode(model)
+		st := gen.DefaultStyle()
+		st.NL = rapid.SampledFrom([]string{"\n", "\r\n", "\r"}).Draw(t, "nl")
+		st.Indent = rapid.SampledFrom([]string{"", "  ", "\t"}).Draw(t, "indent")
+		st.Comments = rapid.IntRange(0, 3).Draw(t, "comments")
+		st.BlankLines = rapid.Bool().Draw(t, "blank")
+		st.SpaceBeforeColon = rapid.Bool().Draw(t, "sbc")
+		text := gen.PrintSchema(sn, st)
+		c := DecoratedCase{Input: string(text), Want: lex.Expected(spanned(sn))}
+		checkDecorated(t, c)
+		nt := (model.Kind == ref.KArray || model.Kind == ref.KObject) && (st.Comments > 0 || st.NL != "\n")
+		run.Eval(chkDec, nt, string(text))
+		run.Label(fmt.Sprintf("comments=%d", st.Comments))
+		run.Label(fmt.Sprintf("line-end=%q", st.NL))
+		if nt {
+			run.Sample(chkDec, map[string]any{"input": string(text)})
+		}
+	})
+}
+
 func TestReplay(t *testing.T) { run.TestReplay(t) }
